@@ -997,6 +997,23 @@ pub fn text_family(kind: usize, len: usize) -> Vec<u8> {
             let again = text_family(1, 2 * t);
             v.extend_from_slice(&again[t / 2..t / 2 + t]);
         }
+        11 => {
+            // text, incompressible noise (a stored block mid-stream), then text that quotes pieces of the noise
+            let t = len / 4;
+            v.extend_from_slice(&text_family(1, t));
+            let noise = text_family(4, len / 2);
+            v.extend_from_slice(&noise);
+            let words = text_family(1, 2 * t);
+            let mut w = 0;
+            while v.len() < len {
+                let n = 8 + (next() as usize % 40);
+                let o = (next() as usize * 31) % (noise.len() - n);
+                v.extend_from_slice(&noise[o..o + n]);
+                let m = 10 + (next() as usize % 30);
+                v.extend_from_slice(&words[w % t..w % t + m]);
+                w += m;
+            }
+        }
         10 => {
             // periodic data with periods 1..=8 (single distance code per block for some compressors)
             let mut period = 1;
